@@ -133,4 +133,247 @@ theorem C09_p2p_accept_topic_and_signature (x : Ctx) (st : State) (p : P2PInput)
     refine ⟨by simpa using h1', ?_⟩
     cases hsig : p.sig <;> rw [hsig] at hs <;> simp [SigResult.toEnv] at hs ⊢
 
+/-- accepted consensus message: its guards, for use below -/
+theorem C09_accept_consensus_guards (x : Ctx) (st : State) (i : Input) (m : QMsg) (hb : i.body = .consensus m)
+    (h : (validate x st i).2 = .accept) : ∃ sh, i.share = some sh ∧ ConsensusOk x st i sh m := by
+  obtain ⟨_, sh, hsh, hc⟩ := accept_cases x st i h
+  rcases hc with ⟨m', hm', _, hok⟩ | ⟨m', hm', _, _⟩
+  · rw [hb] at hm'; cases hm'; exact ⟨sh, hsh, hok⟩
+  · rw [hb] at hm'; cases hm'
+
+/-- signers: non-empty, STRICTLY increasing (sorted and pairwise distinct), every one a non-zero committee member -/
+theorem C09_accept_signers_wellformed (x : Ctx) (st : State) (i : Input) (m : QMsg) (hb : i.body = .consensus m)
+    (h : (validate x st i).2 = .accept) :
+    ∃ sh, i.share = some sh ∧ m.signers ≠ [] ∧ m.signers.Pairwise (· < ·) ∧ ∀ s ∈ m.signers, s ≠ 0 ∧ s ∈ sh.committee := by
+  obtain ⟨sh, hsh, hok⟩ := C09_accept_consensus_guards x st i m hb h
+  exact ⟨sh, hsh, validConsensusSigners_spec sh m hok.signersOk⟩
+
+/-- exactly one signer, unless it is a commit signed by at least a quorum and at most the whole committee -/
+theorem C09_accept_signer_count (x : Ctx) (st : State) (i : Input) (m : QMsg) (hb : i.body = .consensus m)
+    (h : (validate x st i).2 = .accept) :
+    ∃ sh, i.share = some sh ∧ (m.signers.length = 1 ∨
+      (m.mtype = Gen.val_CommitMsgType ∧ sh.quorum ≤ m.signers.length ∧ m.signers.length ≤ sh.committee.length)) := by
+  obtain ⟨sh, hsh, hok⟩ := C09_accept_consensus_guards x st i m hb h
+  exact ⟨sh, hsh, (signersShape_spec sh m (validConsensusSigners_shape sh m hok.signersOk)).1⟩
+
+/-- a proposal is signed by the round-robin leader of its (height, round), and by nobody else -/
+theorem C09_accept_proposal_from_leader (x : Ctx) (st : State) (i : Input) (m : QMsg) (hb : i.body = .consensus m)
+    (hp : m.mtype = Gen.val_ProposalMsgType) (h : (validate x st i).2 = .accept) :
+    ∃ sh leader, i.share = some sh ∧ m.signers = [leader] ∧ roundRobinProposer sh.committee m.height m.round = .ok leader := by
+  obtain ⟨sh, hsh, hok⟩ := C09_accept_consensus_guards x st i m hb h
+  obtain ⟨hcnt, hlead⟩ := signersShape_spec sh m (validConsensusSigners_shape sh m hok.signersOk)
+  have hone : m.signers.length = 1 := by
+    rcases hcnt with h1 | ⟨h2, _, _⟩
+    · exact h1
+    · rw [hp] at h2; cases h2
+  match hs : m.signers, hone with
+  | [s], _ => exact ⟨sh, s, hsh, rfl, hlead hp s hs⟩
+
+/-- any attached full data hashes to the root — for EVERY message type (prepare and commit included since af0324594) -/
+theorem C09_accept_full_data_matches_root (x : Ctx) (st : State) (i : Input) (m : QMsg) (hb : i.body = .consensus m)
+    (h : (validate x st i).2 = .accept) : ∀ d, m.fullData = some d → d = m.root := by
+  obtain ⟨sh, _, hok⟩ := C09_accept_consensus_guards x st i m hb h
+  exact hok.hashOk
+
+/-- the regression witness of af0324594 inside the model: a prepare whose full data does not hash to its root is rejected -/
+def prepare1 : QMsg :=
+  { mtype := 1, height := 32000, round := 1, root := 1, fullData := none, signers := [2], sigLen := 96, sigZero := false,
+    pjMalformed := false, pjLen := 0, rcjMalformed := false, rcjLen := 0, justOk := false }
+def t0 : Int := 1616508000 + 12 * 32000 + 5
+
+theorem C09_prepare_with_wrong_full_data_rejected :
+    (validate ctx0 State.empty (inputAt { prepare1 with fullData := some 2 } t0)).2 = .reject .InvalidHash := by decide
+
+example : (validate ctx0 State.empty (inputAt prepare1 t0)).2 = .accept := by decide
+
+/-! ## slot and round windows -/
+
+/-- SLOT WINDOW (consensus messages): on a 12-second-slot network and with the node's clock between genesis and the
+    year 2242, an accepted consensus message is for a slot that has started (not after the clock's slot) and is at most
+    `ttl` slots old — ttl = 34 for attester / aggregator, 3 for proposer / sync committee roles -/
+theorem C09_accept_slot_window (x : Ctx) (hc : Cfg12 x.cfg) (st : State) (i : Input) (m : QMsg) (hb : i.body = .consensus m)
+    (hclock : RealisticClock x.cfg i.now) (h : (validate x st i).2 = .accept) :
+    (m.height : Int) ≤ curSlot x.cfg i.now ∧
+    ∃ ttl, lateTtl i.role = some ttl ∧ (ttl = 3 ∨ ttl = 34) ∧ curSlot x.cfg i.now ≤ (m.height : Int) + ttl := by
+  obtain ⟨sh, _, hok⟩ := C09_accept_consensus_guards x st i m hb h
+  obtain ⟨hne, hnl⟩ := validateSlotTime_ok_spec _ _ _ _ hok.slotTimeOk
+  have hslot := not_early_spec x.cfg hc m.height i.now hclock hne
+  have hrole := (C09_accept_known_active_validator x st i h).2.2.1
+  obtain ⟨ttl, ht, hle, hcase⟩ := lateTtl_cases i.role hrole hok.roleOk
+  exact ⟨hslot, ttl, ht, hcase, not_late_spec x.cfg hc m.height i.role ttl i.now hclock hslot ht hle hnl⟩
+
+/-- the regression witness of 635251de7 inside the model: a height of current slot + 2^62 (whose start time wraps around
+    to the current slot's) is now turned down as an early message -/
+theorem C09_slot_wraparound_now_refused :
+    (validate ctx0 State.empty (inputAt { prepare1 with height := 32000 + 4611686018427387904 } t0)).2 = .ignore .EarlyMessage := by decide
+
+/-- ROUND WINDOW: round ≥ 1, at most the role's maximum (12 attester / aggregator, 6 proposer / sync roles), and at most
+    one round beyond the round the validator estimates from the time since the slot started (2-second rounds up to
+    round 8, then 2-minute rounds) -/
+theorem C09_accept_round_window (x : Ctx) (hc : Cfg12 x.cfg) (st : State) (i : Input) (m : QMsg) (hb : i.body = .consensus m)
+    (hclock : RealisticClock x.cfg i.now) (h : (validate x st i).2 = .accept) :
+    1 ≤ m.round ∧ (∃ mx, maxRound i.role = .ok mx ∧ m.round ≤ mx ∧ mx ≤ 12) ∧
+    (m.round : Int) ≤ highestRoundSpec x.cfg m.height i.now := by
+  obtain ⟨sh, _, hok⟩ := C09_accept_consensus_guards x st i m hb h
+  obtain ⟨hne, _⟩ := validateSlotTime_ok_spec _ _ _ _ hok.slotTimeOk
+  have hslot := not_early_spec x.cfg hc m.height i.now hclock hne
+  obtain ⟨r1, r2⟩ := roundWindow_spec x.cfg hc m i.now hclock hslot hok.roundWindowOk
+  obtain ⟨mx, hmx, hle⟩ := hok.maxRoundOk
+  have hrole := (C09_accept_known_active_validator x st i h).2.2.1
+  obtain ⟨mx', hmx', hb12⟩ := maxRound_of_validRole i.role hrole
+  rw [hmx] at hmx'; cases hmx'
+  exact ⟨r1, ⟨mx, hmx, hle, hb12⟩, r2⟩
+
+/-- duties: a proposer-role message needs the validator's proposer duty at that slot in the duty store, a sync-committee
+    role message the validator's sync-committee duty of that period -/
+theorem C09_accept_duty (x : Ctx) (st : State) (i : Input) (m : QMsg) (hb : i.body = .consensus m)
+    (h : (validate x st i).2 = .accept) :
+    ∃ sh, i.share = some sh ∧
+      (i.role = Gen.val_BNRoleProposer → x.duties.proposer.contains ((epochAtSlot x.cfg m.height).toNat, m.height, sh.index) = true) ∧
+      ((i.role = Gen.val_BNRoleSyncCommittee ∨ i.role = Gen.val_BNRoleSyncCommitteeContribution) →
+        x.duties.sync.contains ((periodAtEpoch x.cfg (epochAtSlot x.cfg m.height)).toNat, sh.index) = true) := by
+  obtain ⟨sh, hsh, hok⟩ := C09_accept_consensus_guards x st i m hb h
+  exact ⟨sh, hsh, validateBeaconDuty_spec x i.role m.height sh hok.dutyOk⟩
+
+/-- justifications: decodable; prepare justifications only on proposals, round-change justifications only on proposals and
+    round changes; a proposal's justifications satisfy `instance.IsProposalJustification` (abstract) -/
+theorem C09_accept_justifications (x : Ctx) (st : State) (i : Input) (m : QMsg) (hb : i.body = .consensus m)
+    (h : (validate x st i).2 = .accept) :
+    m.pjMalformed = false ∧ m.rcjMalformed = false ∧ (m.mtype ≠ Gen.val_ProposalMsgType → m.pjLen = 0) ∧
+    (m.mtype ≠ Gen.val_ProposalMsgType → m.mtype ≠ Gen.val_RoundChangeMsgType → m.rcjLen = 0) ∧
+    (m.mtype = Gen.val_ProposalMsgType → m.justOk = true) := by
+  obtain ⟨sh, _, hok⟩ := C09_accept_consensus_guards x st i m hb h
+  obtain ⟨_, hne, _⟩ := validConsensusSigners_spec sh m hok.signersOk
+  cases hsg : m.signers with
+  | nil => exact absurd hsg (validConsensusSigners_nonempty sh m hok.signersOk)
+  | cons s rest =>
+    have hbeh := hok.behaviorOk s (by rw [hsg]; exact List.mem_cons_self)
+    cases hst : st (i.vid, i.role, s) with
+    | none =>
+      rw [hst] at hbeh
+      exact validateJustifications_spec m hbeh
+    | some ss =>
+      rw [hst] at hbeh
+      exact validateJustifications_spec m (behavior_some_spec x.cfg sh i.role m ss hbeh).2.2.2
+
+/-! ## per-signer limits -/
+
+/-- no going back: for every signer of an accepted message that already has an entry, (slot, round) of the message is
+    not behind the entry's; if it is the same (slot, round) the counter of this message kind was still below its limit
+    and a stored proposal data, if the message carries full data, is the same data -/
+theorem C09_accept_signer_monotone (x : Ctx) (st : State) (i : Input) (m : QMsg) (hb : i.body = .consensus m)
+    (h : (validate x st i).2 = .accept) :
+    ∀ s ∈ m.signers, ∀ ss, st (i.vid, i.role, s) = some ss →
+      lexLe (ss.slot, ss.round) (m.height, m.round) ∧
+      ((m.height = ss.slot ∧ m.round = ss.round) →
+        (msgKind m ≠ 4 → kindCount (msgKind m) ss.counts = 0) ∧
+        ¬ (hasFullData m = true ∧ ss.proposalData.isSome = true ∧ ss.proposalData ≠ m.fullData)) := by
+  obtain ⟨sh, _, hok⟩ := C09_accept_consensus_guards x st i m hb h
+  intro s hs ss hss
+  have hbeh := hok.behaviorOk s hs
+  rw [hss] at hbeh
+  obtain ⟨h1, h2, _, _⟩ := behavior_some_spec x.cfg sh i.role m ss hbeh
+  refine ⟨h1, fun heq => ?_⟩
+  obtain ⟨c1, c2⟩ := h2 heq
+  exact ⟨fun hk => countsValidate_spec ss.counts m _ hok.typeOk (validConsensusSigners_nonempty sh m hok.signersOk) c1 hk, c2⟩
+
+/-- TRACE INVARIANT (induction over the history): along ANY history of validation calls from the empty state — any mix
+    of validators, roles, message kinds, honest or not, accepted or not — at most ONE proposal, ONE prepare, ONE
+    (single-signer) commit and ONE round change is accepted per (validator, role, signer, slot, round) -/
+theorem C09_per_signer_round_limits (x : Ctx) (kind : Nat) (hk : kind ≤ 3) (vid role s slot round : Nat) (hist : List Input) :
+    countAcc x (isKindAt kind vid role s slot round) State.empty hist ≤ 1 :=
+  (countAcc_le x kind vid role s slot round (by omega) hist State.empty).2
+
+/-- … from any state whatsoever, and zero once the signer's entry has moved past (slot, round) or already counted one -/
+theorem C09_per_signer_round_limits_any_state (x : Ctx) (kind : Nat) (hk : kind ≤ 3) (vid role s slot round : Nat)
+    (hist : List Input) (st : State) :
+    countAcc x (isKindAt kind vid role s slot round) st hist ≤ 1 ∧
+    (usedUp kind vid role s slot round st → countAcc x (isKindAt kind vid role s slot round) st hist = 0) :=
+  ⟨(countAcc_le x kind vid role s slot round (by omega) hist st).2, (countAcc_le x kind vid role s slot round (by omega) hist st).1⟩
+
+/-- no second proposal — with different data or not — by the same signer in the same (slot, round) -/
+theorem C09_no_second_proposal (x : Ctx) (vid role s slot round : Nat) (hist : List Input) :
+    countAcc x (isKindAt 0 vid role s slot round) State.empty hist ≤ 1 :=
+  C09_per_signer_round_limits x 0 (by omega) vid role s slot round hist
+
+/-- non-vacuity: a history in which the second, identical prepare of the same signer is refused -/
+example : countAcc ctx0 (isKindAt 1 1 0 2 32000 1) State.empty [inputAt prepare1 t0, inputAt prepare1 (t0 + 1)] = 1 := by decide
+example : (validate ctx0 (validate ctx0 State.empty (inputAt prepare1 t0)).1 (inputAt prepare1 (t0 + 1))).2
+    = .ignore .TooManySameTypeMessagesPerRound := by decide
+
+/-! ## concurrency: calls for different ids commute -/
+
+/-- validation calls for different (validator, role) ids read and write disjoint parts of the state: both orders give
+    the same two verdicts and the same final state. Together with the per-message-id mutex (read-check-update of one
+    id is atomic) every concurrent execution equals a sequential one. -/
+theorem C09_validate_commutes_across_ids (x : Ctx) (st : State) (a b : Input) (hid : a.vid ≠ b.vid ∨ a.role ≠ b.role) :
+    (validate x (validate x st a).1 b).2 = (validate x st b).2 ∧
+    (validate x (validate x st b).1 a).2 = (validate x st a).2 ∧
+    (validate x (validate x st a).1 b).1 = (validate x (validate x st b).1 a).1 :=
+  validate_commutes x st a b hid
+
+/-- the state changes only when the verdict is accept (a refused message leaves no trace) -/
+theorem C09_refused_message_leaves_state (x : Ctx) (st : State) (i : Input) (h : (validate x st i).2 ≠ .accept) :
+    (validate x st i).1 = st := validate_state_of_not_accept x st i h
+
+/-! ## partial-signature messages -/
+
+/-- FULL clause (what the property asks): an accepted partial-signature message is for a slot inside the window —
+    not after the slot the clock is in (+1 tolerance) -/
+def C09_partial_slot_window_full : Prop :=
+  ∀ (x : Ctx) (st : State) (i : Input) (m : PMsg), Cfg12 x.cfg → RealisticClock x.cfg i.now → i.body = .partialSig m →
+    (validate x st i).2 = .accept → (m.slot : Int) ≤ curSlot x.cfg i.now + 1
+
+def partial1 : PMsg :=
+  { ptype := 0, slot := 18446744073709551615, signer := 2, msgs := [{ signer := 2, root := 7, sigLen := 96, sigZero := false }],
+    sigLen := 96, sigZero := false }
+def pinput (m : PMsg) : Input :=
+  { vid := 1, role := 0, dataLen := 300, domainOk := true, pkOk := true, share := some share4, body := .partialSig m,
+    envSig := .none, now := GoTime.unix t0, wallEpoch := 1000 }
+
+/-- REFUTED on this tree: `validatePartialSignatureMessage` never looks at the clock. Witness: a post-consensus partial
+    signature message for slot 2^64 − 1 is accepted (reproduced on the real validator: known finding
+    `C09/partial-sig-slot-window-unchecked`) -/
+theorem C09_partial_slot_window_full_refuted : ¬ C09_partial_slot_window_full := by
+  intro hfull
+  have hc : Cfg12 ctx0.cfg := ⟨rfl, by decide, by decide, by decide⟩
+  have hclk : RealisticClock ctx0.cfg (pinput partial1).now := by
+    refine ⟨by decide, by decide, by decide, by decide⟩
+  have hacc : (validate ctx0 State.empty (pinput partial1)).2 = .accept := by decide
+  have := hfull ctx0 State.empty (pinput partial1) partial1 hc hclk rfl hacc
+  revert this
+  decide
+
+/-- … and afterwards the signer's honest message for the current slot is ignored (the entry is pinned to slot 2^64 − 1) -/
+theorem C09_partial_future_slot_mutes_signer :
+    (validate ctx0 (validate ctx0 State.empty (pinput partial1)).1 (inputAt prepare1 t0)).2 = .ignore .SlotAlreadyAdvanced := by decide
+
+/-- PARTIAL (what the code does enforce for an accepted partial-signature message): known type matching the role,
+    signer a non-zero committee member, at least one message, all inner messages by the same signer with well-formed
+    non-zero signatures and pairwise distinct signing roots, well-formed non-zero outer signature, operator signature as
+    for consensus messages, and the slot is not behind the signer's entry. Missing w.r.t. the property: the slot window. -/
+theorem C09_partial_accept_sound_partial (x : Ctx) (st : State) (i : Input) (m : PMsg) (hb : i.body = .partialSig m)
+    (h : (validate x st i).2 = .accept) :
+    ∃ sh, i.share = some sh ∧ validPartialSigMsgType m.ptype = true ∧ partialTypeMatchesRole m.ptype i.role = .ok true ∧
+      m.signer ≠ 0 ∧ m.signer ∈ sh.committee ∧ m.msgs ≠ [] ∧
+      (∀ it ∈ m.msgs, it.signer = m.signer ∧ it.sigLen = 96 ∧ it.sigZero = false) ∧ (m.msgs.map (·.root)).Nodup ∧
+      signatureFormat m.sigLen m.sigZero = .ok () ∧ (i.envSig = .none ∨ i.envSig = .valid) ∧
+      (∀ ss, st (i.vid, i.role, m.signer) = some ss → ss.slot ≤ m.slot) := by
+  obtain ⟨_, sh, hsh, hc⟩ := accept_cases x st i h
+  rcases hc with ⟨m', hm', _, _⟩ | ⟨m', hm', _, hok⟩
+  · rw [hb] at hm'; cases hm'
+  · rw [hb] at hm'; cases hm'
+    obtain ⟨a, b, c⟩ := validatePartialMessages_spec sh m hok.messagesOk
+    have hloop : partialItemLoop sh m.signer [] m.msgs = .ok () := by
+      have := hok.messagesOk
+      unfold validatePartialMessages at this
+      exact (firstFail_ok_iff _).mp this _ (List.mem_cons_of_mem _ (List.mem_cons_of_mem _ List.mem_cons_self))
+    obtain ⟨l1, l2⟩ := partialItemLoop_spec sh m.signer m.msgs [] hloop
+    refine ⟨sh, hsh, hok.typeOk, hok.typeRoleOk, a, b, c, fun it hit => ⟨(l1 it hit).1, (l1 it hit).2.1, (l1 it hit).2.2.1⟩, l2,
+      hok.sigOk, envSigCheck_ok_spec _ hok.envOk, ?_⟩
+    intro ss hss
+    have := hok.behaviorOk
+    rw [hss] at this
+    exact behaviorPartial_some_spec x.cfg i.role m ss this
+
 end Ssv.Validation
